@@ -100,6 +100,10 @@ func simReactor(cs *compState) {
 				if err == nil {
 					check(!after, "frozen", "insert-accepted-after-freeze", "ReceiveInsert(%s) was invoked after Freeze() had returned and was accepted", id)
 				} else {
+					// a refused insert takes nothing: the seed is not tracked (and so holds no token)
+					for _, tid := range tableIDs() {
+						check(tid != id, "insert", "rejected-insert-left-in-table", "ReceiveInsert(%s) returned %v but the seed is tracked (it holds a token for ever)", id, err)
+					}
 					check(errors.Is(err, reactor.ErrReactorFrozen) || errors.Is(err, reactor.ErrReactorShuttingDown), "insert", "insert-unexpected-error", "ReceiveInsert(%s): %v", id, err)
 					check(frozenReturned || doFreeze, "insert", "insert-rejected-without-freeze", "ReceiveInsert(%s) rejected (%v) although the reactor was never frozen", id, err)
 				}
